@@ -451,7 +451,7 @@ def sdDelattr (s : SD K V) (attr : Option K) : Except Err (SD K V) :=
         else                                         -- different: put the attribute back
           .ok { s with attrs := dset s.attrs attr item }
 
-def Res.ofExcept' (s : SD K V) : Except Err (SD K V) → SD K V × Res K V
+def Res.ofExcept (s : SD K V) : Except Err (SD K V) → SD K V × Res K V
   | .ok s' => (s', .done)
   | .error .key => (s, .keyError)
   | .error .attr => (s, .attrError)
@@ -514,7 +514,7 @@ def sdSetDefaultName (s : SD K V) (dn : K) (value : V) : SD K V × Res K V :=
     "default")` decides between `del self["default"]` and putting the attribute "back" -/
 def sdDelattrDefaultName (s : SD K V) (dn : K) : SD K V × Res K V :=
   match getitem s.mkd dn with
-  | none => Res.ofExcept' s (objDelattr s none)
+  | none => Res.ofExcept s (objDelattr s none)
   | some item =>
     if dget s.attrs none = some item then sdDelDefaultName s dn
     else ({ s with attrs := dset s.attrs none item }, .done)
@@ -544,11 +544,6 @@ inductive SOp (K V : Type) where
   /-- `key_tuple in sd`, `sd.get(key_tuple)` (inherited from `dict`) -/
   | contains (keyTuple : List K)
   | dictGet (keyTuple : List K)
-
-def Res.ofExcept (s : SD K V) : Except Err (SD K V) → SD K V × Res K V
-  | .ok s' => (s', .done)
-  | .error .key => (s, .keyError)
-  | .error .attr => (s, .attrError)
 
 def Res.ofDefault : Option V → Res K V
   | none => .notImpl
